@@ -629,21 +629,23 @@ func exec(x *fw.Ctx, c Case) {
 func init() {
 	fw.Register(fw.Spec[Case]{
 		ID: "C19",
-		Rule: "a fixed, seed-independent block of ~550 cases (hand-written examples of every load-formable kind; for every avoid-set construct 3-4 generated cases, " +
-			"the first of them holding nothing but the construct), then seeded cases in the ratio 10 data objects (number, string, symbol, character, list, " +
+		Rule: "a fixed, seed-independent block of ~600 cases (hand-written examples of every load-formable kind, redefinition histories, three-level " +
+			"flavor chains, instances whose variables were set to nil and other empty values; for every avoid-set construct 3-4 generated cases, the " +
+			"first of them holding nothing but the construct), then seeded cases in the ratio 10 data objects (number, string, symbol, character, list, " +
 			"vector, array, hash table) : 6 code objects (defun, defmacro, lambda, compiled call, from a typed generator of pure code that reaches every " +
-			"pretty-printer layout) : 2 definitions (package, flavor, flavor instance, class, class instance, generic function with methods; reloaded from " +
-			"their load form text in a fresh process) : 2 sessions (5-25 defvar/defparameter/defconstant/defun/defmacro/defflavor(+instance)/defgeneric+" +
-			"defmethod/defpackage/setq-of-a-standard-variable items -> snapshot -> fresh process -> load -> snapshot -> probes), each at margins drawn from " +
-			"20..120; distinct = distinct case JSON; non-trivial = slip accepted the original definition. Flavors come in inheritance chains of up to " +
-			"three levels whose children re-declare inherited variables with an ancestor's or a new default. Functions, macros, variables, flavors, " +
-			"classes and generic methods are redefined 0-2 times (other lambda list, documentation, body, variable set) before their load form or the " +
-			"snapshot is taken: what is saved has to be the last definition. About one case in six carries exactly one " +
-			"avoid-set construct (feat=...; counters dirty:<construct>), all others avoid all of them: plain symbols as data, empty vectors, fill " +
-			"pointers and array attributes in snapshots, long floats with inexact decimal digits, backquote templates, documentation that wraps " +
-			"(sessions), slot accessors in class load forms, quoted flavor defaults, parents with variables lacking accessors, proper inittable subsets " +
-			"in children, unrelated flavors in one session, flavor methods and classes in sessions, variables/functions/exports of user packages in " +
-			"sessions, undefined callees, a failed send before a snapshot",
+			"pretty-printer layout) : 2 definitions (package with a use graph, flavor, flavor instance, class, class instance, generic function with " +
+			"before/after/around methods; reloaded from their load form text in a fresh process) : 2 sessions (5-25 defvar/defparameter/defconstant/" +
+			"defun/defmacro/defflavor(+instance whose variables are changed after creation)/defgeneric+defmethod/defpackage/setq-of-a-standard-variable " +
+			"items -> snapshot -> fresh process -> load -> snapshot -> probes: values through the harness renderer, calls on probe arguments, describe " +
+			"output, class precedence, which-operations), each at margins drawn from 20..120; distinct = distinct case JSON; non-trivial = slip " +
+			"accepted the original definition. Flavors come in inheritance chains of up to three levels whose children re-declare inherited variables " +
+			"with an ancestor's or a new default. Functions, macros, variables, flavors, classes and generic methods are redefined 0-2 times before " +
+			"their load form or the snapshot is taken: what is saved has to be the last definition. About one case in six carries exactly one avoid-set " +
+			"construct (feat=...; counters dirty:<construct>), all others avoid all of them: plain symbols as data, quotes inside quoted lists, empty " +
+			"vectors, fill pointers and array attributes in snapshots, long floats with inexact decimal digits, backquote templates, documentation that " +
+			"wraps (sessions), slot accessors in class load forms, unbound slots with an initform, quoted flavor defaults, parents with variables lacking " +
+			"accessors, unrelated flavors in one session, flavor methods and classes in sessions, variables/functions/exports/use graphs of user " +
+			"packages in sessions, closures over let bindings, undefined callees, a failed send before a snapshot",
 		N:        nCases,
 		Gen:      gen,
 		Exec:     exec,
